@@ -1,6 +1,23 @@
 import TabulaModel.Util
 import TabulaModel.Model.Xref
 import TabulaModel.Model.XrefBytes
+import TabulaModel.Model.XrefFile
+/-!
+Ops of C04:
+* `c04.run S=<start> X=<sections> O=<objects> P=<ops>` — the abstract model (Model/Xref.lean);
+* `c04.xent <line>` / `c04.xsent <w0,w1,w2> <data>` — one classic / binary entry;
+* `c04.lines <data>` — `bufio.Scanner` with `scanPDFLines`: `tl=<ErrTooLong> lens=<line lengths>`;
+* `c04.find <file>` — `FindXRef`;
+* `c04.sec <off> <inflate> <file>` — `ParseXRef(off)`: `ok prev=<-|N|bad> <entries>` or `err`;
+* `c04.ind <lengths> <bytes>` — `ParseIndirectObject` (`lengths`: `_` or `num=value;…`, what the
+  resolver answers for an indirect /Length; value `x` = not an integer);
+* `c04.file <inflate> <file> <numbers>` — `reader.Open` + `GetObject` of every number on the
+  bytes of the file: `xref=[…] res=[…]` or `open-err`.
+* `c04.osm <inflate> <dict> <data> <indices>` — `core.NewObjectStream` on a stream with that
+  dictionary text and data, then `GetObjectByIndex` for every index in order on the one object:
+  `num:value` or `e` per call.
+`inflate`: `_` or `<in>><out>;…` (zlib's answers, `!` = rejected).
+-/
 namespace Tabula.C04H
 open Tabula Tabula.Xref
 
@@ -76,7 +93,141 @@ def dumpXref (x : Section) : String :=
   let keys := (x.map Prod.fst).foldl (fun acc k => insertSorted k acc) []
   ",".intercalate (keys.filterMap fun k => (getLast x k).map (showEntry k))
 
+/-! ### byte-level ops -/
+open Tabula.XrefFile (RawEntry RawSection getLastI)
+
+def unhexN (s : String) : Option (List Nat) := (unhex s).map fun b => b.map (·.toNat)
+
+def hexN (s : List Nat) : String := hex (s.map UInt8.ofNat)
+
+def parseInflate (s : String) : Option (List (List Nat × Option (List Nat))) :=
+  if s == "_" then some [] else
+  (s.splitOn ";").mapM fun e => match e.splitOn ">" with
+    | [i, o] => do
+      let i ← unhexN i
+      let o ← if o == "!" then some none else (unhexN o).map some
+      pure (i, o)
+    | _ => none
+
+def mkExt (infl : List (List Nat × Option (List Nat))) : Reader.Ext :=
+  { filt := { inflate := fun x => match infl.find? (fun e => e.1 == x) with | some e => e.2 | none => none,
+              ccitt := fun _ _ => none },
+    nfc := fun p => p }
+
+def insertSortedI (x : Int) : List Int → List Int
+  | [] => [x]
+  | y :: ys => if x < y then x :: y :: ys else if x = y then y :: ys else y :: insertSortedI x ys
+
+def showRaw (n : Int) (e : RawEntry) : String :=
+  s!"{n}:{XrefBytes.kindCode e.kind}:{e.f1}:{e.f2}"
+
+def dumpRaw (x : RawSection) : String :=
+  let keys := (x.map Prod.fst).foldl (fun acc k => insertSortedI k acc) []
+  ",".intercalate (keys.filterMap fun k => (getLastI x k).map (showRaw k))
+
+def strLt : List Nat → List Nat → Bool
+  | [], [] => false
+  | [], _ :: _ => true
+  | _ :: _, [] => false
+  | a :: as, b :: bs => if a < b then true else if b < a then false else strLt as bs
+
+def insertKey (k : List Nat × String) : List (List Nat × String) → List (List Nat × String)
+  | [] => [k]
+  | y :: ys => if strLt k.1 y.1 then k :: y :: ys else y :: insertKey k ys
+
+/-- canonical rendering of a parsed object (the harness renders Go's value the same way) -/
+partial def showObj : Pdf.Obj → String
+  | .null => "null"
+  | .bool b => if b then "true" else "false"
+  | .int i => s!"i{i}"
+  | .real _ _ _ => "real"
+  | .str v => "s" ++ hexN v
+  | .name v => "n" ++ hexN v
+  | .arr xs => "[" ++ ",".intercalate (xs.map showObj) ++ "]"
+  | .dict kv =>
+    let items := kv.foldl (fun acc p => insertKey (p.1, hexN p.1 ++ ":" ++ showObj p.2) acc) []
+    "{" ++ ",".intercalate (items.map Prod.snd) ++ "}"
+  | .ref n g => s!"{n}.{g}R"
+
+def showPVal : Reader.PVal → String
+  | .obj o => showObj o
+  | .stream _ data => s!"S{data.length}"
+
+def parseLens (s : String) : Option (List (Int × Option Int)) :=
+  if s == "_" then some [] else
+  (s.splitOn ";").mapM fun e => match e.splitOn "=" with
+    | [a, b] => do
+      let a ← a.toInt?
+      let b ← if b == "x" then some none else b.toInt?.map some
+      pure (a, b)
+    | _ => none
+
+def parseInts (s : String) : Option (List Int) :=
+  if s == "-" then some [] else (s.splitOn ",").mapM String.toInt?
+
+def showPrev : XrefFile.Prev → String
+  | .absent => "-"
+  | .at p => toString p
+  | .bad => "bad"
+
+def handleBytes (op : String) (args : List String) : Option String :=
+  match op, args with
+  | "c04.lines", [h] =>
+    (unhexN h).map fun bs =>
+      let p := XrefFile.linesOf bs
+      s!"tl={if p.2 then 1 else 0} lens=[{",".intercalate (p.1.map fun l => toString l.length)}]"
+  | "c04.find", [h] =>
+    (unhexN h).map fun bs =>
+      match XrefFile.findXRef bs with
+      | .ok v => s!"ok {v}"
+      | .error _ => "err"
+  | "c04.sec", [off, infl, h] =>
+    match off.toInt?, parseInflate infl, unhexN h with
+    | some off, some infl, some bs =>
+      some (match XrefFile.parseXRef (mkExt infl) bs off with
+        | .ok (sec, tr) => s!"ok prev={showPrev (XrefFile.prevOf tr)} [{dumpRaw sec}]"
+        | .error _ => "err")
+    | _, _, _ => none
+  | "c04.ind", [lens, h] =>
+    match parseLens lens, unhexN h with
+    | some lens, some bs =>
+      let lenOf : Int → Option Int := fun m => match lens.find? (fun e => e.1 == m) with | some e => e.2 | none => none
+      some (match XrefFile.parseIndirect bs lenOf with
+        | some (num, gen, .obj o) => s!"ok {num} {gen} {showObj o}"
+        | some (num, gen, .stream kv data) => s!"ok {num} {gen} S{showObj (.dict kv)}{hexN data}"
+        | none => "err")
+    | _, _ => none
+  | "c04.osm", [infl, d, data, idxs] =>
+    match parseInflate infl, unhexN d, unhexN data, parseInts idxs with
+    | some infl, some d, some data, some idxs =>
+      some (match Pdf.coreParse d with
+        | .ok (.dict kv, _) =>
+          let dec := Reader.mkObjStm (mkExt infl) kv data
+          let res := XrefFile.osRun dec {} idxs
+          ",".intercalate (res.map fun r => match r with
+            | some (num, o) => s!"{num}:{showObj o}"
+            | none => "e")
+        | _ => "bad-dict")
+    | _, _, _, _ => none
+  | "c04.file", [infl, h, nums] =>
+    match parseInflate infl, unhexN h, parseInts nums with
+    | some infl, some bs, some nums =>
+      let ext := mkExt infl
+      some (match XrefFile.openFile ext bs with
+        | .error _ => "open-err"
+        | .ok x =>
+          let res := nums.map fun n =>
+            match XrefFile.getObjectB ext bs x (x.length + 2) [] n with
+            | some v => showPVal v
+            | none => "e"
+          s!"xref=[{dumpRaw x}] res=[{",".intercalate res}]")
+    | _, _, _ => none
+  | _, _ => none
+
 def handle (op : String) (args : List String) : String :=
+  match handleBytes op args with
+  | some r => r
+  | none =>
   match op, args with
   | "c04.run", [start, secs, objs, ops] =>
     match nat? ((start.drop 2).toString), parseList "|" parseSec (secs.drop 2).toString,
@@ -90,15 +241,15 @@ def handle (op : String) (args : List String) : String :=
   | "c04.xent", [h] =>
     match unhex h with
     | some bs =>
-      (match XrefBytes.parseEntry (bs.map (·.toNat)) with
+      (match XrefBytes.parseEntryU (bs.map (·.toNat)) with
        | some (off, gen, inUse) => s!"ok {off} {gen} {if inUse then "n" else "f"}"
        | none => "err")
     | none => "bad-op"
   | "c04.xsent", [ws, h] =>
     match (ws.splitOn ",").mapM String.toNat?, unhex h with
     | some [w0, w1, w2], some bs =>
-      (match XrefBytes.parseStreamEntry (bs.map (·.toNat)) w0 w1 w2 with
-       | some ((k, f1, f2), n) => s!"ok {XrefBytes.kindCode k} {f1} {f2} {n}"
+      (match XrefFile.streamEntry (bs.map (·.toNat)) w0 w1 w2 with
+       | some e => s!"ok {XrefBytes.kindCode e.kind} {e.f1} {e.f2} {w0 + w1 + w2}"
        | none => "err")
     | _, _ => "bad-op"
   | _, _ => "bad-op"
